@@ -56,9 +56,10 @@ def first_diff(a, b):
 
 
 def install(g, prop, names, prefixes, profiles_quick, profiles_thorough=None, n_quick=250, n_thorough=4000,
-            nontrivial=None, corpus=(), hang_clause=None, extra_monitors=None, case_filter=None):
+            nontrivial=None, corpus=(), hang_clause=None, extra_monitors=None, case_filter=None, level="exploration"):
     """Defines the driver API in module namespace g."""
     g["PROP"] = prop
+    g["LEVEL"] = level
     g["COQ_IMPORTS"] = COQ_IMPORTS
     g["COQ_FN"] = COQ_FN
     g["IMPL"] = IMPL
